@@ -92,6 +92,15 @@ func c10Compile(src string, vars ...string) *gojq.Code {
 	return c
 }
 
+// c10Snapshot / c10Unchanged: operands must not be modified by evaluating an operator on them
+func c10Snapshot(vs ...any) []string {
+	out := make([]string, len(vs))
+	for i, v := range vs {
+		out[i] = SexpVal(v)
+	}
+	return out
+}
+
 func c10Run1(c *gojq.Code, in any, vals ...any) any {
 	it := c.Run(in, vals...)
 	v, ok := it.Next()
@@ -120,6 +129,27 @@ func runC10(c *Ctx) {
 	for _, o := range ops {
 		codes[o.name] = c10Compile(o.src, "$a", "$b")
 	}
+	type site struct {
+		name, op, src string
+		code *gojq.Code
+	}
+	var sites []site
+	for _, st := range []struct{ name, op, src string }{
+		{"add-builtin", "add", "[$a,$b]|add"}, {"add-builtin-obj", "add", "{x:$a,y:$b}|add"}, {"add1", "add", "add($a,$b)"},
+		{"reduce-add", "add", "reduce ($a,$b) as $x (0; .+$x)"}, {"update-add", "add", "[$a]|.[0]+=$b|.[0]"},
+		{"update-sub", "sub", "[$a]|.[0]-=$b|.[0]"}, {"update-mul", "mul", "[$a]|.[0]*=$b|.[0]"},
+		{"update-div", "div", "[$a]|.[0]/=$b|.[0]"}, {"update-mod", "mod", "[$a]|.[0]%=$b|.[0]"},
+		{"pipe-mul", "mul", "[$a,$b]|.[0]*.[1]"}, {"abs-reuse-add", "add", "$a+($b|abs)-($b|abs)+$b"},
+		{"neg-neg-sub", "sub", "$a-(-(-$b))"}, {"foreach-mul", "mul", "last(foreach ($a,$b) as $x (1; .*$x))"},
+		{"tojson-roundtrip-add", "add", "($a|tojson|fromjson)+$b"}, {"tostring-tonumber-mul", "mul", "($a|tostring|tonumber)*$b"},
+	} {
+		if q, err := gojq.Parse(st.src); err == nil {
+			if code, err := gojq.Compile(q, gojq.WithVariables([]string{"$a", "$b"})); err == nil {
+				sites = append(sites, site{st.name, st.op, st.src, code})
+			}
+		}
+	}
+	c.Stats["sites"] = len(sites)
 	neg := c10Compile("-$a", "$a")
 	abs := c10Compile("$a|abs", "$a")
 	length := c10Compile("$a|length", "$a")
@@ -148,8 +178,10 @@ func runC10(c *Ctx) {
 			}
 		}
 	}
+	ncore := 0
 	if len(c.Args) == 0 {
 		core := c10Core()
+		ncore = len(core) * len(core)
 		for _, a := range core {
 			for _, b := range core {
 				pairs = append(pairs, pr{a, b})
@@ -169,10 +201,27 @@ func runC10(c *Ctx) {
 		for _, ra := range c10Reps(a) {
 			for _, rb := range c10Reps(b) {
 				for _, o := range ops {
+					before := c10Snapshot(ra, rb)
 					res := c10Run1(codes[o.name], nil, ra, rb)
-					c.Emit("(binop %s %s %s %s)", o.name, SexpVal(ra), SexpVal(rb), c10Result(res))
+					c.Emit("(binop %s %s %s %s)", o.name, before[0], before[1], c10Result(res))
 					c.Count("binop:" + o.name)
 					evals++
+					if after := c10Snapshot(ra, rb); after[0] != before[0] || after[1] != before[1] {
+						c.Violation("operands modified by `%s`: before %v after %v", o.src, before, after)
+					}
+				}
+				// the same arithmetic at other code sites (every 7th pair, and all core pairs)
+				if i < ncore || i%7 == 0 {
+					for _, st := range sites {
+						before := c10Snapshot(ra, rb)
+						res := c10Run1(st.code, nil, ra, rb)
+						c.Emit("(site %s %s %s %s %s)", st.name, st.op, before[0], before[1], c10Result(res))
+						c.Count("site:" + st.name)
+						evals++
+						if after := c10Snapshot(ra, rb); after[0] != before[0] || after[1] != before[1] {
+							c.Violation("operands modified by `%s`: before %v after %v", st.src, before, after)
+						}
+					}
 				}
 				c.Emit("(cmp %s %s %d)", SexpVal(ra), SexpVal(rb), gojq.Compare(ra, rb))
 				c.Count("cmp")
@@ -182,6 +231,8 @@ func runC10(c *Ctx) {
 	}
 	for _, a := range ints {
 		for _, ra := range c10Reps(a) {
+			before := c10Snapshot(ra)
+			defer func() {}()
 			c.Emit("(neg %s %s)", SexpVal(ra), c10Result(c10Run1(neg, nil, ra)))
 			c.Emit("(abs %s %s)", SexpVal(ra), c10Result(c10Run1(abs, nil, ra)))
 			c.Emit("(abs %s %s)", SexpVal(ra), c10Result(c10Run1(length, nil, ra)))
@@ -190,6 +241,9 @@ func runC10(c *Ctx) {
 				c.Violation("Marshal(%v) error %v", ra, err)
 			}
 			c.Emit("(enc %s %s)", SexpVal(ra), Hexs(bs))
+			if after := c10Snapshot(ra); after[0] != before[0] {
+				c.Violation("operand modified by neg/abs/length/Marshal: before %v after %v", before, after)
+			}
 			c.Count("unary")
 			evals += 4
 		}
